@@ -18,7 +18,8 @@ Harness operations (see go/harness/mcp/zz_verif_sessions_test.go):
 `reset <stateful|stateless> <timeout ms>` · `post <ref> <user> <init|badinit|ping|notif|slow>` ·
 `postx <user> <kind>` (a creating POST during which the server closes the new session between `Connect`
 and the publication in `h.sessions` — F20) ·
-`release <slot>` · `get|delete|other <ref> <user>` · `tick <ms>` · `close <ref>` · `end`;
+`release <slot>` · `abandon <slot>` (the client of that POST goes away, its handler keeps running) ·
+`get|delete|other <ref> <user>` · `tick <ms>` · `close <ref>` · `end`;
 `ref` = `-` | `s<k>` (k-th minted id) | `x<n>` (never minted); `user` = `anon|ue|u<n>`.
 -/
 namespace Sessions
@@ -75,6 +76,7 @@ def showOwner : User → String
 
 inductive PKind where
   | slow (sid : Option Nat) (slot : Nat)
+  | run (sid : Nat) (slot : Nat)   -- handler still running after its POST was abandoned by the client
   | hang (sid : Nat)       -- a call POSTed to a closing session: refused by the connection, the POST waits for the session to go away
   | del (sid : Nat)
   | cls (sid : Nat)
@@ -114,7 +116,8 @@ def completions (s : State) (pend : List Pend) : List String × List Pend × Sta
     | .cls i => if isLive st i then (done, keep ++ [p], st) else (done ++ [s!"{p.tag}=1"], keep, st)
     | .hang i => if isLive st i then (done, keep ++ [p], st)
                  else (done ++ [s!"{p.tag}=200"], keep, doL st (.postEnd (some i) false))
-    | .slow _ _ => (done, keep ++ [p], st)) ([], [], s)
+    | .slow _ _ => (done, keep ++ [p], st)
+    | .run _ _ => (done, keep ++ [p], st)) ([], [], s)
 
 structure MSess where
   name : String
@@ -122,6 +125,7 @@ structure MSess where
   status : Nat            -- 0 live, 1 dying (DELETE/close in progress), 2 dead
   posts : Nat
   idleSince : Nat
+  running : Nat := 0      -- handlers still running after their POST was abandoned
 deriving Repr
 
 structure DState where
@@ -135,6 +139,7 @@ structure DState where
   mnow : Nat := 0
   mpend : List (String × String) := []    -- async tag ↦ session name
   zombies : List String := []             -- F20: sessions closed during creation that were published anyway
+  mrun : List (Nat × String) := []        -- slot of an abandoned POST whose handler still runs ↦ session name
 
 structure MOut where
   st : State
@@ -231,7 +236,7 @@ def modelOp (d : DState) (toks : List String) : Option MOut :=
     if k = 0 || k > d.nslow || d.released.contains k then some { base with head := "noop -" }
     else
       let base := { base with head := "ok -", released := d.released ++ [k] }
-      match d.pend.find? (fun p => match p.kind with | .slow _ s => s == k | _ => false) with
+      match d.pend.find? (fun p => match p.kind with | .slow _ s => s == k | .run _ s => s == k | _ => false) with
       | some p =>
         let rest := d.pend.filter (fun q => q.tag != p.tag)
         match p.kind with
@@ -245,8 +250,26 @@ def modelOp (d : DState) (toks : List String) : Option MOut :=
             some { base with st := doL (doL st (.handlerDone i false)) (.postEnd (some i) false),
                              done := [s!"{p.tag}=200"], pend := rest }
         | .slow none _ => some { base with st := doL st (.postEnd none false), done := [s!"{p.tag}=200"], pend := rest }
+        | .run i _ => some { base with st := doL st (.handlerDone i false), pend := rest }
         | _ => some base
       | none => some base
+  | ["abandon", ks] => do
+    let k ← ks.toNat?
+    let tag := s!"p{k}"
+    match d.pend.find? (fun p => p.tag == tag) with
+    | none => some { base with head := "noop -" }
+    | some p =>
+      let rest := d.pend.filter (fun q => q.tag != tag)
+      match p.kind with
+      | .slow (some i) slot =>
+        -- the POST ends (endPOST), the handler stays in flight
+        some { base with st := doL st (.postEnd (some i) false), head := "ok -", done := [s!"{tag}=200"],
+                         pend := rest ++ [⟨s!"r{k}", .run i slot⟩] }
+      | .slow none _ =>
+        -- stateless: the POST now waits in `defer session.Close()` for its handler: nothing observable
+        some { base with head := "ok -" }
+      | .hang i => some { base with st := doL st (.postEnd (some i) false), head := "ok -", done := [s!"{tag}=200"], pend := rest }
+      | _ => some { base with head := "noop -" }
   | ["get", ref, user] => do
     let sid ← parseRef st.next ref
     let u ← parseUser user
@@ -329,6 +352,7 @@ structure MonRes where
   mnow : Nat
   mpend : List (String × String)
   zombies : List String
+  mrun : List (Nat × String)
   viol : Option String := none
 
 def f20 : String := "C11: F20 session closed by the server during its creating POST is kept in the handler's table"
@@ -342,7 +366,10 @@ def monitorOp (cfg : Cfg) (d : DState) (toks : List String) (racy : Bool) (o : O
     | _ => d.mnow
   -- idle sessions die when their timeout has elapsed (observed at quiescence after the tick)
   let mon0 := d.mon.map fun e =>
-    if e.status == 0 && e.posts == 0 && cfg.timeout > 0 && e.idleSince + cfg.timeout ≤ now then { e with status := 2 } else e
+    if e.status == 0 && e.posts == 0 && cfg.timeout > 0 && e.idleSince + cfg.timeout ≤ now then
+      -- with a handler still running the close cannot complete yet: the session is going away
+      { e with status := if e.running > 0 then 1 else 2 }
+    else e
   let isReq := match toks with
     | "post" :: _ | "get" :: _ | "delete" :: _ | "other" :: _ => true
     | _ => false
@@ -431,6 +458,21 @@ def monitorOp (cfg : Cfg) (d : DState) (toks : List String) (racy : Bool) (o : O
         else if st == "pending" then (monUpd mon0 ref (fun e => if e.status == 0 then { e with status := 1 } else e), d.mpend ++ [(tagOf, ref)])
         else (mon0, d.mpend)
       | _ => (mon0, d.mpend)
+  -- abandoned POSTs: the handler keeps running; released handlers stop running
+  let slotArg := ((toks[1]?).getD "").toNat?.getD 0
+  let (mon1, mrun1) : List MSess × List (Nat × String) :=
+    match op with
+    | "abandon" =>
+      if st == "ok" then
+        match mpend1.find? (·.1 == s!"p{slotArg}") with
+        | some (_, nm) => (monUpd mon1 nm (fun e => { e with running := e.running + 1 }), d.mrun ++ [(slotArg, nm)])
+        | none => (mon1, d.mrun)
+      else (mon1, d.mrun)
+    | "release" =>
+      match d.mrun.find? (·.1 == slotArg) with
+      | some (_, nm) => (monUpd mon1 nm (fun e => { e with running := e.running - 1 }), d.mrun.filter (·.1 != slotArg))
+      | none => (mon1, d.mrun)
+    | _ => (mon1, d.mrun)
   -- async completions
   let (mon2, mpend2) := o.done.foldl (fun (acc : List MSess × List (String × String)) c =>
     let tag := ((c.splitOn "=")[0]?).getD ""
@@ -499,7 +541,7 @@ def monitorOp (cfg : Cfg) (d : DState) (toks : List String) (racy : Bool) (o : O
   let viol := if names.any zombies.contains then
       viol.map (fun c => if c.startsWith "C11: F20" then c else s!"{f20}; then {c}")
     else viol
-  { mon := mon5, mnow := now, mpend := mpend2, zombies := zombies, viol := viol }
+  { mon := mon5, mnow := now, mpend := mpend2, zombies := zombies, mrun := mrun1, viol := viol }
 
 /-! ## the engine -/
 
@@ -527,14 +569,14 @@ def engine : Engine DState where
         | _ => (toks, false)
       let mr := monitorOp d.st.cfg d mtoks racy o
       match modelOp d toks with
-      | none => ({ d with mon := mr.mon, mnow := mr.mnow, mpend := mr.mpend, zombies := mr.zombies },
+      | none => ({ d with mon := mr.mon, mnow := mr.mnow, mpend := mr.mpend, zombies := mr.zombies, mrun := mr.mrun },
                  { model := "bad-op", violated := mr.viol })
       | some m =>
         let st := settle m.st
         let (doneC, pend, st) := completions st m.pend
         let model := s!"{m.head} done:{joinOr (sortStrs (m.done ++ doneC))} map:{showMap st} srv:{showSrv st} log:{joinOr (sortStrs m.log)}"
         ({ st := st, nslow := m.nslow, nasync := m.nasync, released := m.released, pend := pend,
-           mon := mr.mon, mnow := mr.mnow, mpend := mr.mpend, zombies := mr.zombies },
+           mon := mr.mon, mnow := mr.mnow, mpend := mr.mpend, zombies := mr.zombies, mrun := mr.mrun },
          { model := model, violated := mr.viol })
 
 end Sessions
